@@ -2,8 +2,8 @@ package main
 
 import (
 	"fmt"
-	"os"
 	"go/types"
+	"os"
 )
 
 const tgPath = "github.com/cloudwego/thriftgo/"
@@ -99,4 +99,3 @@ func init() {
 		Bounds: codec.Bounds + " || " + gen.Bounds, Functions: append(append([]string{}, codec.Functions...), gen.Functions...),
 		Assumptions: append(append([]string{}, codec.Assumptions...), gen.Assumptions...)})
 }
-
